@@ -439,8 +439,15 @@ def w_shape_queries(jobs):
                 kids[stack[-1]].append(i + 1)
             stack.append(i)
         w = World.build({"name": list(nm), "kids": kids})
+        texts = (sum(d) + len(traces)) % 2 == 1
+        if texts:
+            # mixed content: nodes that have text of their own AND children (a tail too) - the search queries go by names and
+            # child lists, whatever else a node carries
+            for k, x in enumerate(w.nodes):
+                x.content = "text %d" % k
+                x.tail = "tail" if k % 2 else None
         st = w.pi(fields)
-        tr = {"init": st, "events": [], "desc": {"depths": d, "names": list(nm)}}
+        tr = {"init": st, "events": [], "desc": {"depths": d, "names": list(nm), "every_node_has_text": texts}}
         root = w.n(1)
         for pa in paths:
             tr["events"].append({"op": "q", "q": "all_by_path", "args": [1, pa], "ret": [w.ident(y) for y in root.find_all_nodes_by_path(list(pa))], "post": st})
